@@ -108,6 +108,14 @@ def run_entry(profile, features, entry, repo=None):
             st.meta["removed_id_form"] = {x: "reported"} if "reported" in form else {}
             I.push_call(st, NID + entry, [driver.arg_id(st, x), VOpaque("payload", "new"), driver.arena_ref()], None, None)
             I.explore([st], lambda t, e=entry: records.append(unary_record(I, e, t)))
+    elif entry == "append_alloc":
+        # the allocation half of append_value, recorded like new_node's (used when append_value does not allocate through new_node)
+        st = State()
+        x = st.new_node(True, "arg:self")
+        st.meta["args"] = (x,)
+        st.meta["case"] = "x live"
+        I.push_call(st, NID + "append_value", [driver.arg_id(st, x), VOpaque("payload", "new"), driver.arena_ref()], None, None)
+        I.explore([st], lambda t, e=entry: records.append(freelist_record(I, e, t, x)))
     elif entry == "new_node":
         st = State()
         st.meta["args"] = ()
@@ -157,12 +165,15 @@ def stamp_roles(prog):
     new_cone = idx.reachable(["crate::arena::Arena<T>::new_node"])
     isrem_cone = idx.reachable(["crate::node::Node<T>::is_removed"])
     cand = {
-        "removed": [k for (k, a1, ret, n) in meths if a1.startswith("&mut ") and n == 1 and k in free_cone],
-        "reuse": [k for (k, a1, ret, n) in meths if a1.startswith("&mut ") and n == 1 and k in new_cone and k not in free_cone],
-        "reuseable": [k for (k, a1, ret, n) in meths if ret == "bool" and n == 1 and k in free_cone and k not in isrem_cone],
+        # a transition either updates the stamp in place (`&mut self`) or maps the old stamp to the new one (`self -> NodeStamp`)
+        "removed": [k for (k, a1, ret, n) in meths if (a1.startswith("&mut ") or (a1 == STAMP and ret == STAMP)) and n == 1 and k in free_cone],
+        "reuse": [k for (k, a1, ret, n) in meths if (a1.startswith("&mut ") or (a1 == STAMP and ret == STAMP)) and n == 1 and k in new_cone and k not in free_cone],
+        "reuseable": [k for (k, a1, ret, n) in meths if ret == "bool" and n == 1 and k in free_cone and k not in isrem_cone and not a1.startswith("&mut ")],
         "is_removed": [k for (k, a1, ret, n) in meths if ret == "bool" and n == 1 and k in isrem_cone],
     }
     roles = {}
+    if not cand["reuseable"] and len(cand["removed"]) == 1 and [ret for (k, a1, ret, n) in meths if k == cand["removed"][0]] == ["bool"]:
+        cand["reuseable"] = list(cand["removed"])        # the removal transition itself reports whether the slot may be handed out again
     for r, ks in cand.items():
         if len(ks) != 1:
             return None, "cannot identify the stamp helper for role `%s` (candidates: %s)" % (r, ks)
@@ -181,7 +192,24 @@ def stamp_entry(I):
     st = State()
     st.bounds[sym] = (0, I16_MAX)
     slot = st.new_temp(VStruct(STAMP, (("0", VInt(Lin(0, sym, 1), 16, True)),)))
-    a = _stage(I, [st], roles["removed"], lambda s: [VRef(slot, (), True)], None)
+
+    def transition(states, key):
+        """Apply a stamp transition to the slot: in place through `&mut self`, or by value (`self -> NodeStamp`, the caller stores the result)."""
+        mir = I.prog.fns[key]["mir"]
+        if I.prog.tys(mir["locals"][1]["ty"]).startswith("&mut "):
+            return _stage(I, states, key, lambda s: [VRef(slot, (), True)], None)
+        out = []
+        for (s_, k_, v_, m_) in _stage(I, states, key, lambda s: [s.meta["temps"][slot[1]]], None):
+            if k_ == "return":
+                if not (isinstance(v_, VStruct) and v_.adt == STAMP):
+                    out.append((s_, "undecided", v_, "the transition does not return a stamp"))
+                    continue
+                s_.meta["temps"] = dict(s_.meta.get("temps", {}))
+                s_.meta["temps"][slot[1]] = v_
+            out.append((s_, k_, v_, m_))
+        return out
+
+    a = transition([st], roles["removed"])
     for (s1, k1, v1, m1) in a:
         lo, hi = s1.bounds[sym]
         base = {"entry": "stamp", "s_range": [lo, hi], "as_removed_exit": k1, "msg": m1}
@@ -193,7 +221,10 @@ def stamp_entry(I):
         rlo, rhi = s1.term_bounds(removed.t)
         base["removed_term"] = repr(removed.t)
         base["removed_range"] = [rlo, rhi]
-        b = _stage(I, [s1], roles["reuseable"], lambda s: [s.meta["temps"][slot[1]]], None)
+        if roles["reuseable"] == roles["removed"]:
+            b = [(s1, "return" if isinstance(v1, VBool) else "undecided", v1, "the removal transition does not return a decided bool")]
+        else:
+            b = _stage(I, [s1], roles["reuseable"], lambda s: [s.meta["temps"][slot[1]]], None)
         for (s2, k2, v2, m2) in b:
             r2 = dict(base)
             r2["s_range"] = list(s2.bounds[sym])
@@ -208,7 +239,7 @@ def stamp_entry(I):
                 r2["exit"] = "retired"
                 recs.append(r2)
                 continue
-            c = _stage(I, [s2], roles["reuse"], lambda s: [VRef(slot, (), True)], None)
+            c = transition([s2], roles["reuse"])
             for (s3, k3, v3, m3) in c:
                 r3 = dict(r2)
                 r3["s_range"] = list(s3.bounds[sym])
@@ -347,7 +378,11 @@ def access_entry(I):
             return ["node", v.root[1]]
         if isinstance(v, VStruct) and v.adt == NODEID:
             n = st.node_of_id(v)
-            same_stamp = n is not None and models.values_equal(view.I, st, v.get("stamp"), view.I.read_node_field(st, n, "stamp"))
+            try:
+                same_stamp = n is not None and models.values_equal(view.I, st, v.get("stamp"), view.I.read_node_field(st, n, "stamp"))
+            except Fork:
+                # equal for some generations of the slot and different for others: not the slot's current id in general
+                return ["id", n, "stamp equal only for some generations"]
             return ["id", n, "current-stamp" if same_stamp else "other-stamp"]
         if isinstance(v, VBool):
             return v.b
@@ -603,10 +638,11 @@ def loop_entry(I, entry):
     if not cur_is_option:
         return records
     st = State()
-    x = st.new_node(True, "arg:self")
+    # the step obligations let the cursor run out only once x itself has been freed (C04 subtree-step: `root_freed`), so x is a removed slot at the exit
+    x = st.new_node(False, "arg:self")
     st.meta["args"] = (x,)
     st.meta["root"] = x
-    st.meta["case"] = "exit, cursor None"
+    st.meta["case"] = "exit, cursor None (x already freed)"
     st.frame_counter += 1
     locs = dict(base_locals)
     locs[cl] = none()
